@@ -1,7 +1,343 @@
-(* C17 - cert-chain+cbor and SCT lists; placeholder until the proofs land. *)
-From WP Require Import Base.Prelude Model.CertChain.
+(* C17 - application/cert-chain+cbor and SCT lists.
+
+   "Writing a certificate chain and reading it back reproduces each
+   certificate's DER, the OCSP response and the SCT list byte-for-byte, and the
+   output is canonical CBOR of the form [magic, {cert, ocsp?, sct?}, ...]; only
+   chains whose first element carries an OCSP response and whose later elements
+   carry none can be written or read.  A serialized SCT list is a well-formed
+   RFC 6962 length-prefixed vector containing exactly the given SCTs in order,
+   or an error if an element or the total exceeds 65535 bytes."
+
+   Statements only; proofs live in Proofs/CertChain{Write,Read,Sct}.v.
+   Model = Model/CertChain.v (certurl/certchain.go, certurl/sct.go); the spec
+   side is Spec/CertChain.v (Form, OcspFirstOnly, ReadForm, SctVector,
+   sct_parse) on top of Spec/Cbor.v (senc_tokens, stokens, shead, blt).
+   x509_ok ("x509.ParseCertificate accepts these bytes") is universally
+   quantified.  Size side conditions:  aug_lt B a  :=  every component of a is
+   shorter than B.  Go slices are shorter than 2^63, so  aug_lt two63  and
+   lenN c + 1 < two64  always hold at run time; they are needed here because
+   lenN is an unbounded N while the decoder refuses lengths >= 2^63.  No
+   "elements are bytes" (wfb) hypothesis is needed anywhere on the chain side. *)
+From Coq Require Import Lia.
+From WP Require Import Base.Prelude Model.Cbor Model.CertChain Spec.Cbor Spec.CertChain.
+From WP Require Import Proofs.BaseLemmas Proofs.CborHead Proofs.CborTokens Proofs.CborDecode
+  Proofs.CertChainWrite Proofs.CertChainRead Proofs.CertChainSct.
 Open Scope N_scope.
 
-Theorem c17_smoke : serialize_sct_list [[1; 2]; []] = Ok [0; 6; 0; 2; 1; 2; 0; 0].
-Proof. reflexivity. Qed.
-Print Assumptions c17_smoke.
+(* ==== write then read ============================================================ *)
+(* every component comes back byte for byte (c is the list of records, so
+   "Ok c" is equality of every DER / OCSP / SCT byte string, present-or-absent
+   included); bytes after the chain are not looked at, as in the Go reader *)
+Theorem chain_roundtrip : forall (x509_ok : bytes -> bool) (c : list augcert),
+  Forall (fun a => x509_ok (ac_cert a) = true) c ->
+  lenN c + 1 < two64 -> Forall (aug_lt two63) c ->
+  validate c = true ->
+  exists bs, cc_write c = Ok bs /\ cc_read x509_ok bs = Ok c /\
+             forall rest, cc_read x509_ok (bs ++ rest) = Ok c.
+Proof. exact CertChainRead.chain_roundtrip. Qed.
+Print Assumptions chain_roundtrip.
+
+(* ==== the written bytes ============================================================ *)
+(* Form: bs = shortest-form encoding of
+     TArr (|c|+1), TText magic, then per certificate
+     TMap k, ["sct" v]?, "cert" der, ["ocsp" v]?            (Spec.CertChain)
+   and the independent tokeniser reads exactly these tokens back, each head in
+   its minimal width. *)
+Theorem chain_canonical : forall (c : list augcert) (bs : bytes),
+  cc_write c = Ok bs ->
+  Form bs c /\
+  (lenN c + 1 < two64 -> Forall (aug_lt two64) c ->
+   exists toks, stokens bs = Some toks /\ Forall tok_shortest toks /\
+                map fst toks = chain_tokens c).
+Proof. exact CertChainWrite.chain_canonical. Qed.
+Print Assumptions chain_canonical.
+
+(* the entry order used by Form IS the bytewise order of the encoded keys *)
+Theorem keys_ascending :
+  blt (senc_token (key "sct")) (senc_token (key "cert")) /\
+  blt (senc_token (key "cert")) (senc_token (key "ocsp")) /\
+  senc_token (key "sct") = [99; 115; 99; 116] /\
+  senc_token (key "cert") = [100; 99; 101; 114; 116] /\
+  senc_token (key "ocsp") = [100; 111; 99; 115; 112].
+Proof. exact CertChainWrite.keys_ascending. Qed.
+Print Assumptions keys_ascending.
+
+Theorem magic_is_go_constant :
+  magic = cc_magic /\ magic = [240; 159; 147; 156; 226; 155; 147] /\ Utf8Valid magic.
+Proof. exact (conj magic_eq (conj magic_bytes magic_utf8)). Qed.
+Print Assumptions magic_is_go_constant.
+
+(* ==== which chains can be written ================================================== *)
+Theorem validate_iff : forall c, validate c = true <-> OcspFirstOnly c.
+Proof. exact CertChainWrite.validate_iff. Qed.
+Print Assumptions validate_iff.
+
+Theorem write_validates : forall (c : list augcert) (bs : bytes),
+  cc_write c = Ok bs -> validate c = true /\ bs = chain_bytes c.
+Proof. exact CertChainWrite.write_validates. Qed.
+Print Assumptions write_validates.
+
+Theorem write_invalid_err : forall c, validate c = false -> cc_write c = Err.
+Proof. exact CertChainWrite.cc_write_invalid. Qed.
+Print Assumptions write_invalid_err.
+
+(* EncodeMap cannot fail: with validate it is Ok; never Panic / Fuel *)
+Theorem write_ok : forall c, validate c = true -> cc_write c = Ok (chain_bytes c).
+Proof. exact CertChainWrite.cc_write_ok. Qed.
+Print Assumptions write_ok.
+
+Theorem write_ok_iff : forall c, (exists bs, cc_write c = Ok bs) <-> OcspFirstOnly c.
+Proof.
+  intros c. rewrite <- CertChainWrite.validate_iff. exact (CertChainWrite.cc_write_ok_iff c).
+Qed.
+Print Assumptions write_ok_iff.
+
+Theorem write_err_iff : forall c, cc_write c = Err <-> validate c = false.
+Proof. exact CertChainWrite.cc_write_err_iff. Qed.
+Print Assumptions write_err_iff.
+
+Theorem write_total : forall c, ok_or_err (cc_write c).
+Proof. exact CertChainWrite.cc_write_total. Qed.
+Print Assumptions write_total.
+
+(* ==== which inputs can be read ====================================================== *)
+Theorem read_validates : forall (x509_ok : bytes -> bool) (bs : bytes) (c : list augcert),
+  cc_read x509_ok bs = Ok c ->
+  validate c = true /\ Forall (fun a => x509_ok (ac_cert a) = true) c.
+Proof. exact CertChainRead.read_validates. Qed.
+Print Assumptions read_validates.
+
+(* a successful read saw: array head n >= 2 (any width), the magic text, n-1
+   maps of (text, bytes) pairs; the record fields are the LAST values under
+   "cert" / "ocsp" / "sct"; other keys are skipped *)
+Theorem read_sound : forall (x509_ok : bytes -> bool) (bs : bytes) (c : list augcert),
+  cc_read x509_ok bs = Ok c -> ReadForm bs c.
+Proof. exact CertChainRead.read_sound. Qed.
+Print Assumptions read_sound.
+
+(* exactly: that shape, every string shorter than 2^63, EVERY "cert" value
+   (also the overridden ones) parseable, and the OCSP rule *)
+Theorem read_iff : forall (x509_ok : bytes -> bool) (bs : bytes) (c : list augcert),
+  cc_read x509_ok bs = Ok c <-> (ReadFormOk x509_ok bs c /\ validate c = true).
+Proof. exact CertChainRead.read_iff. Qed.
+Print Assumptions read_iff.
+
+(* fuel sufficiency for ALL inputs (counts up to 2^64-1 included): every loop
+   iteration consumes at least one byte or fails *)
+Theorem read_total : forall (x509_ok : bytes -> bool) (bs : bytes),
+  ok_or_err (cc_read x509_ok bs).
+Proof. exact CertChainRead.read_total. Qed.
+Print Assumptions read_total.
+
+(* ==== SerializeSCTList =============================================================== *)
+Theorem sct_ok : forall (l : list bytes) (bs : bytes),
+  serialize_sct_list l = Ok bs <->
+  (Forall (fun s => lenN s <= 65535) l /\ sct_total l <= 65535) /\
+  bs = be 2 (sct_total l) ++ flat_map (fun s => be 2 (lenN s) ++ s) l.
+Proof. exact CertChainSct.sct_ok. Qed.
+Print Assumptions sct_ok.
+
+Theorem sct_err_iff : forall l : list bytes,
+  serialize_sct_list l = Err <->
+  (Exists (fun s => 65535 < lenN s) l \/ 65535 < sct_total l).
+Proof. exact CertChainSct.sct_err_iff. Qed.
+Print Assumptions sct_err_iff.
+
+Theorem sct_never_panics : forall l, ok_or_err (serialize_sct_list l).
+Proof. exact CertChainSct.sct_total_fn. Qed.
+Print Assumptions sct_never_panics.
+
+Theorem sct_total_is_sum : forall l, sct_total l = sct_sum l.
+Proof. exact CertChainSct.sct_total_sum. Qed.
+Print Assumptions sct_total_is_sum.
+
+(* success <-> the output is THE RFC 6962 vector of l; failure <-> none exists *)
+Theorem sct_vector : forall (l : list bytes) (bs : bytes),
+  serialize_sct_list l = Ok bs -> SctVector bs l.
+Proof. exact CertChainSct.sct_vector. Qed.
+Print Assumptions sct_vector.
+
+Theorem sct_vector_iff : forall (l : list bytes) (bs : bytes),
+  serialize_sct_list l = Ok bs <-> SctVector bs l.
+Proof. exact CertChainSct.sct_vector_iff. Qed.
+Print Assumptions sct_vector_iff.
+
+Theorem sct_err_no_vector : forall l,
+  serialize_sct_list l = Err <-> forall bs, ~ SctVector bs l.
+Proof. exact CertChainSct.sct_err_no_vector. Qed.
+Print Assumptions sct_err_no_vector.
+
+(* the uint16 conversions never wrap: each prefix is the true length *)
+Theorem sct_prefix_exact : forall (l : list bytes) (bs : bytes),
+  serialize_sct_list l = Ok bs ->
+  unbe (be 2 (sct_total l)) = sct_total l /\
+  Forall (fun s => unbe (be 2 (lenN s)) = lenN s) l /\
+  lenN bs = 2 + sct_total l.
+Proof. exact CertChainSct.sct_prefix_exact. Qed.
+Print Assumptions sct_prefix_exact.
+
+(* the independent parser gets the same SCTs back, in order (no wfb needed) *)
+Theorem sct_parse_inverse : forall (l : list bytes) (bs : bytes),
+  serialize_sct_list l = Ok bs -> sct_parse bs = Some l.
+Proof. exact CertChainSct.sct_parse_inverse. Qed.
+Print Assumptions sct_parse_inverse.
+
+(* ... and on byte input it accepts nothing but serializer outputs *)
+Theorem sct_parse_iff : forall (bs : bytes) (l : list bytes),
+  wfb bs -> (sct_parse bs = Some l <-> serialize_sct_list l = Ok bs).
+Proof. exact CertChainSct.sct_parse_iff. Qed.
+Print Assumptions sct_parse_iff.
+
+(* REFUTED (corner case): RFC 6962's vectors have a floor of 1 -
+   SerializedSCT<1..2^16-1>, sct_list<1..2^16-1>.  SerializeSCTList enforces
+   only the ceilings: [] gives 00 00 and [[]] gives 00 02 00 00. *)
+Theorem sct_rfc_floor_refuted :
+  (exists l bs, serialize_sct_list l = Ok bs /\ ~ SctVectorRfc bs l) /\
+  serialize_sct_list [] = Ok [0; 0] /\
+  serialize_sct_list [[]] = Ok [0; 2; 0; 0] /\
+  ~ SctVectorRfc [0; 0] [] /\ ~ SctVectorRfc [0; 2; 0; 0] [[]].
+Proof. exact CertChainSct.sct_rfc_floor_refuted. Qed.
+Print Assumptions sct_rfc_floor_refuted.
+
+Theorem sct_vector_rfc : forall (l : list bytes) (bs : bytes),
+  l <> [] -> Forall (fun s => 1 <= lenN s) l ->
+  serialize_sct_list l = Ok bs -> SctVectorRfc bs l.
+Proof. exact CertChainSct.sct_vector_rfc. Qed.
+Print Assumptions sct_vector_rfc.
+
+(* ==== non-vacuity / concrete behaviour ============================================== *)
+(* stand-in for x509.ParseCertificate: "starts with a SEQUENCE tag" *)
+Definition der_like (b : bytes) : bool := match b with 48 :: _ => true | _ => false end.
+Definition leaf : augcert :=
+  {| ac_cert := [48; 1; 7]; ac_ocsp := Some [1; 2]; ac_sct := Some [0; 0] |}.
+Definition inter : augcert := {| ac_cert := [48; 0]; ac_ocsp := None; ac_sct := None |}.
+Definition inter_bad : augcert := {| ac_cert := [48; 0]; ac_ocsp := Some [9]; ac_sct := None |}.
+
+Definition ex_bytes : bytes :=
+  [131;                                                   (* array(3)            *)
+   103; 240; 159; 147; 156; 226; 155; 147;                (* text(7) magic       *)
+   163;                                                   (* map(3)              *)
+   99; 115; 99; 116;  66; 0; 0;                           (* "sct"  h'0000'      *)
+   100; 99; 101; 114; 116;  67; 48; 1; 7;                 (* "cert" h'300107'    *)
+   100; 111; 99; 115; 112;  66; 1; 2;                     (* "ocsp" h'0102'      *)
+   161;                                                   (* map(1)              *)
+   100; 99; 101; 114; 116;  66; 48; 0].                   (* "cert" h'3000'      *)
+
+Example ex_roundtrip :
+  cc_write [leaf; inter] = Ok ex_bytes /\
+  cc_read der_like ex_bytes = Ok [leaf; inter] /\
+  cc_read der_like (ex_bytes ++ [255; 255]) = Ok [leaf; inter].
+Proof. vm_compute. repeat split. Qed.
+
+Example ex_roundtrip_hyps :
+  Forall (fun a => der_like (ac_cert a) = true) [leaf; inter] /\
+  lenN [leaf; inter] + 1 < two64 /\ Forall (aug_lt two63) [leaf; inter] /\
+  validate [leaf; inter] = true /\ OcspFirstOnly [leaf; inter].
+Proof.
+  split; [repeat constructor|]. split; [reflexivity|].
+  split; [repeat constructor|]. split; [reflexivity|].
+  apply validate_iff. reflexivity.
+Qed.
+
+Example ex_tokens :
+  stokens ex_bytes =
+  Some [(TArr 3, 0); (TText magic, 0);
+        (TMap 3, 0); (key "sct", 0); (TBytes [0; 0], 0); (key "cert", 0);
+        (TBytes [48; 1; 7], 0); (key "ocsp", 0); (TBytes [1; 2], 0);
+        (TMap 1, 0); (key "cert", 0); (TBytes [48; 0], 0)] /\
+  chain_tokens [leaf; inter] =
+  [TArr 3; TText magic; TMap 3; key "sct"; TBytes [0; 0]; key "cert"; TBytes [48; 1; 7];
+   key "ocsp"; TBytes [1; 2]; TMap 1; key "cert"; TBytes [48; 0]].
+Proof. vm_compute. split; reflexivity. Qed.
+
+(* a second element with OCSP, an empty chain, a first element without OCSP:
+   refused by Write *)
+Example ex_write_refuses :
+  cc_write [leaf; inter_bad] = Err /\ cc_write [] = Err /\ cc_write [inter; inter] = Err /\
+  validate [leaf; inter_bad] = false /\ ~ OcspFirstOnly [leaf; inter_bad].
+Proof.
+  repeat split; try reflexivity.
+  intros H. apply validate_iff in H. discriminate.
+Qed.
+
+(* the same on the wire (hand-built bytes): the maps decode fine, Validate says no *)
+Definition ex_head : bytes := [131; 103; 240; 159; 147; 156; 226; 155; 147].
+Definition ex_leaf_map : bytes :=
+  [163; 99; 115; 99; 116; 66; 0; 0; 100; 99; 101; 114; 116; 67; 48; 1; 7;
+   100; 111; 99; 115; 112; 66; 1; 2].
+Definition ex_bad_map : bytes :=
+  [162; 100; 99; 101; 114; 116; 66; 48; 0; 100; 111; 99; 115; 112; 65; 9].
+
+Example ex_read_refuses :
+  cc_read der_like (ex_head ++ ex_leaf_map ++ ex_bad_map) = Err /\
+  dec_chain der_like 100 2 (ex_leaf_map ++ ex_bad_map) [] = Ok ([leaf; inter_bad], []) /\
+  (* first element without ocsp *)
+  cc_read der_like ([130; 103; 240; 159; 147; 156; 226; 155; 147] ++
+                    [161; 100; 99; 101; 114; 116; 66; 48; 0]) = Err /\
+  (* "cert" value that does not parse (31 00) *)
+  cc_read der_like ([130; 103; 240; 159; 147; 156; 226; 155; 147] ++
+                    [162; 100; 99; 101; 114; 116; 66; 49; 0; 100; 111; 99; 115; 112; 65; 9]) = Err /\
+  (* array of length 1 (magic only), wrong magic *)
+  cc_read der_like [129; 103; 240; 159; 147; 156; 226; 155; 147] = Err /\
+  cc_read der_like ([130; 103; 240; 159; 147; 156; 226; 155; 148] ++ ex_bad_map) = Err.
+Proof. vm_compute. repeat split. Qed.
+
+(* the reader is liberal (it does not insist on canonical input): non-shortest
+   heads, unsorted keys, an unknown key "x", "ocsp" twice (the later wins),
+   trailing bytes *)
+Example ex_read_liberal :
+  cc_read der_like
+    ([152; 2; 103; 240; 159; 147; 156; 226; 155; 147;
+      165; 100; 111; 99; 115; 112; 65; 1;
+           100; 99; 101; 114; 116; 88; 2; 48; 5;
+           97; 120; 64;
+           100; 111; 99; 115; 112; 65; 2;
+           99; 115; 99; 116; 64] ++ [255; 255])
+  = Ok [{| ac_cert := [48; 5]; ac_ocsp := Some [2]; ac_sct := Some [] |}] /\
+  (* an overridden "cert" value is still parsed: 31 00 then 30 00 fails, 30 01 then 30 00 succeeds *)
+  cc_read der_like ([130; 103; 240; 159; 147; 156; 226; 155; 147] ++
+     [163; 100; 99; 101; 114; 116; 66; 49; 0; 100; 99; 101; 114; 116; 66; 48; 0;
+      100; 111; 99; 115; 112; 65; 9]) = Err /\
+  cc_read der_like ([130; 103; 240; 159; 147; 156; 226; 155; 147] ++
+     [163; 100; 99; 101; 114; 116; 66; 48; 1; 100; 99; 101; 114; 116; 66; 48; 0;
+      100; 111; 99; 115; 112; 65; 9]) = Ok [inter_bad].
+Proof. vm_compute. repeat split. Qed.
+
+(* counts of 2^64-1 on a short input: an error, not a spin *)
+Example ex_read_huge_counts :
+  cc_read der_like ([155; 255; 255; 255; 255; 255; 255; 255; 255;
+                     103; 240; 159; 147; 156; 226; 155; 147] ++ ex_leaf_map) = Err /\
+  cc_read der_like ([155; 255; 255; 255; 255; 255; 255; 255; 255;
+                     103; 240; 159; 147; 156; 226; 155; 147] ++ ex_leaf_map ++
+                    [187; 255; 255; 255; 255; 255; 255; 255; 255]) = Err.
+Proof. vm_compute. split; reflexivity. Qed.
+
+(* ---- SCT lists ---------------------------------------------------------------------- *)
+Definition zeros (n : N) : bytes := N.iter n (cons 0) [].
+
+Example ex_sct_small :
+  serialize_sct_list [[1; 2; 3]; []; [7]] = Ok [0; 10; 0; 3; 1; 2; 3; 0; 0; 0; 1; 7] /\
+  sct_parse [0; 10; 0; 3; 1; 2; 3; 0; 0; 0; 1; 7] = Some [[1; 2; 3]; []; [7]] /\
+  sct_parse [0; 9; 0; 3; 1; 2; 3; 0; 0; 0; 1; 7] = None /\      (* wrong total      *)
+  sct_parse [0; 10; 0; 3; 1; 2; 3; 0; 0; 0; 2; 7] = None /\     (* element too long *)
+  SctVector [0; 10; 0; 3; 1; 2; 3; 0; 0; 0; 1; 7] [[1; 2; 3]; []; [7]].
+Proof.
+  repeat split; try (vm_compute; reflexivity).
+  - repeat constructor; cbn; lia.
+  - vm_compute. discriminate.
+Qed.
+
+(* boundaries: one element of 65535 bytes has total 65537; 65534 has 65536;
+   65533 has 65535 and is written with prefixes ff ff, ff fd; 32766 + 32765
+   has total 65535; an element of 65536 bytes is refused by itself *)
+Example ex_sct_boundaries :
+  serialize_sct_list [zeros 65535] = Err /\
+  serialize_sct_list [zeros 65534] = Err /\
+  serialize_sct_list [zeros 65536] = Err /\
+  serialize_sct_list [zeros 32766; zeros 32766] = Err /\
+  match serialize_sct_list [zeros 65533] with
+  | Ok bs => (firstn 4 bs, lenN bs) | _ => ([], 0) end = ([255; 255; 255; 253], 65537) /\
+  match serialize_sct_list [zeros 32766; zeros 32765] with
+  | Ok bs => (firstn 4 bs, lenN bs) | _ => ([], 0) end = ([255; 255; 127; 254], 65537) /\
+  (sct_total [zeros 65535], sct_total [zeros 65533]) = (65537, 65535).
+Proof. vm_compute. repeat split. Qed.
